@@ -79,7 +79,8 @@ def shapes(rng):
 
 
 # ------------------------------------------------------------------ visibility script
-def vis_script_and_probes(h):
+def vis_script_and_probes(h, only=None):
+    """only = (site, path, class, member): emit just the probes of that cell (replay)"""
     L = []
     probes = []      # dict: site, path, c, m, kind-of-observation, + labels
     allnames = [n for n, _ in h.classes]
@@ -134,79 +135,100 @@ def vis_script_and_probes(h):
                             L.append("  public function %s_sw_%s_%s($v) { %s::$%s = $v; return 1; }" % (k, named, n, named, n))
         L.append("}")
 
-    def rd(expr, site, path, c, m, d, tag, extra=""):
+    cur = {"mark": ""}
+
+    def rd(expr, site, path, c, m, d, tag, extra=None):
+        extra = cur["mark"] if extra is None else extra
+        if only and only != (tuple(site), path, c, m):
+            return
         L.append('try { sink(%s); echo "A\\n"; } catch (Throwable $e) { echo "D\\n"; }' % expr)
         probes.append({"site": site, "path": path, "c": c, "m": m, "d": d, "tag": tag, "store": None, "extra": extra})
 
-    def wr(stmt, readback, site, path, c, m, d, tag, init, extra=""):
+    def wr(stmt, readback, site, path, c, m, d, tag, init, extra=None):
+        extra = cur["mark"] if extra is None else extra
+        if only and only != (tuple(site), path, c, m):
+            return
         # $t is a fresh target; the value is read back through a getter of the declaring class
         L.append('$t = new %s(); try { %s echo "A"; } catch (Throwable $e) { echo "D"; } echo ":", %s, "\\n";' % (c, stmt, readback))
         probes.append({"site": site, "path": path, "c": c, "m": m, "d": d, "tag": tag, "store": init, "extra": extra})
 
     init = {"pu": 1, "pr": 2, "pv": 3}
     targets = [n for n, _ in h.classes if h.resolvable(n, "prop")]
-    # ---- outside (top-level code, and a top-level closure)
-    for c in targets:
-        L.append("$o = new %s();" % c)
-        for n, d, tag in h.resolvable(c, "prop"):
-            rd("$o->%s" % n, ["out"], "PArrowRead", c, n, d, tag)
-            L.append('$nm = "%s";' % n)
-            rd("$o->{$nm}", ["out"], "PDynRead", c, n, d, tag)
-            rd("$o[$nm]", ["out"], "PIndexRead", c, n, d, tag)
-            L.append("$f = function() use ($o) { return $o->%s; };" % n)
-            rd("$f()", ["out"], "PArrowRead", c, n, d, tag, "closure")
-            wr("$t->%s = 77;" % n, "$t->pk_%s()" % n, ["out"], "PArrowWrite", c, n, d, tag, init[tag])
-            wr("$t->{$nm} = 77;", "$t->pk_%s()" % n, ["out"], "PDynWrite", c, n, d, tag, init[tag])
-            wr("$t[$nm] = 77;", "$t->pk_%s()" % n, ["out"], "PIndexWrite", c, n, d, tag, init[tag])
-        for n, d, tag in h.resolvable(c, "meth"):
-            rd("$o->%s()" % n, ["out"], "PCall", c, n, d, tag)
-            L.append('$nm = "%s";' % n)
-            rd("$o->{$nm}()", ["out"], "PDynCall", c, n, d, tag)
-        for n, d, tag in h.resolvable(c, "smeth"):
-            rd("%s::%s()" % (c, n), ["out"], "PStaticCall", c, n, d, tag)
-        for n, d, tag in h.resolvable(c, "sprop"):
-            rd("%s::$%s" % (c, n), ["out"], "PStaticRead", c, n, d, tag)
-    # ---- inside: code written in l, running on an object of runtime class r (r is l or a descendant)
-    for l, _ in h.classes:
-        for r, _ in h.classes:
-            if not h.le(r, l):
-                continue
-            site = ["in", l, r]
-            L.append("$s = new %s();" % r)
-            for c in targets:
-                L.append("$o = new %s();" % c)
-                for n, d, tag in h.resolvable(c, "prop"):
-                    rd("$s->%s_rd_%s($o)" % (l, n), site, "PArrowRead", c, n, d, tag)
-                    rd("$s->%s_crd_%s($o)" % (l, n), site, "PArrowRead", c, n, d, tag, "closure")
-                    rd('$s->%s_dyrd($o, "%s")' % (l, n), site, "PDynRead", c, n, d, tag)
-                    rd('$s->%s_ixrd($o, "%s")' % (l, n), site, "PIndexRead", c, n, d, tag)
-                    wr("$s->%s_wr_%s($t, 77);" % (l, n), "$t->pk_%s()" % n, site, "PArrowWrite", c, n, d, tag, init[tag])
-                    wr('$s->%s_dywr($t, "%s", 77);' % (l, n), "$t->pk_%s()" % n, site, "PDynWrite", c, n, d, tag, init[tag])
-                    wr('$s->%s_ixwr($t, "%s", 77);' % (l, n), "$t->pk_%s()" % n, site, "PIndexWrite", c, n, d, tag, init[tag])
-                for n, d, tag in h.resolvable(c, "meth"):
-                    rd("$s->%s_cl_%s($o)" % (l, n), site, "PCall", c, n, d, tag)
-                    rd("$s->%s_ccl_%s($o)" % (l, n), site, "PCall", c, n, d, tag, "closure")
-                    rd('$s->%s_dycl($o, "%s")' % (l, n), site, "PDynCall", c, n, d, tag)
-                for n, d, tag in h.resolvable(c, "smeth"):
-                    rd("$s->%s_st_%s_%s()" % (l, c, n), site, "PStaticCall", c, n, d, tag)
-                for n, d, tag in h.resolvable(c, "sprop"):
-                    rd("$s->%s_sr_%s_%s()" % (l, c, n), site, "PStaticRead", c, n, d, tag)
-            # $this paths: the object is $this (class r)
-            for n, d, tag in h.resolvable(l, "prop"):
-                rd("$s->%s_trd_%s()" % (l, n), site, "PThisRead", r, n, d, tag)
-                L.append('$t = new %s(); try { $t->%s_twr_%s(77); echo "A"; } catch (Throwable $e) { echo "D"; } echo ":", $t->pk_%s(), "\\n";' % (r, l, n, n))
-                probes.append({"site": site, "path": "PThisWrite", "c": r, "m": n, "d": d, "tag": tag, "store": init[tag], "extra": ""})
-            for n, d, tag in h.resolvable(l, "meth"):
-                rd("$s->%s_tcl_%s()" % (l, n), site, "PThisCall", r, n, d, tag)
-            par = h.parent[l]
-            if par:
-                for kind in ("meth", "smeth"):
-                    for n, d, tag in h.resolvable(par, kind):
-                        rd("$s->%s_pa_%s()" % (l, n), site, "PParentCall", r, n, d, tag)
+
+    def emit_pass(again):
+        """one pass over every site x object class x member x path.  The second pass (again=True) repeats every
+        probe of a non-public member in REVERSED order: a decision must not depend on what the same call site,
+        object or class decided before (first allowed then denied, first denied then allowed, denied twice)"""
+        od = (lambda x: list(reversed(list(x)))) if again else (lambda x: list(x))
+        keep = (lambda ms: [m for m in od(ms) if m[2] != "pu"]) if again else od
+        mark = "again" if again else ""
+        cur["mark"] = mark
+        # ---- outside (top-level code, and a top-level closure)
+        for c in od(targets):
+            L.append("$o = new %s();" % c)
+            for n, d, tag in keep(h.resolvable(c, "prop")):
+                rd("$o->%s" % n, ["out"], "PArrowRead", c, n, d, tag)
+                L.append('$nm = "%s";' % n)
+                rd("$o->{$nm}", ["out"], "PDynRead", c, n, d, tag)
+                rd("$o[$nm]", ["out"], "PIndexRead", c, n, d, tag)
+                L.append("$f = function() use ($o) { return $o->%s; };" % n)
+                rd("$f()", ["out"], "PArrowRead", c, n, d, tag, "closure" + ("," + mark if mark else ""))
+                wr("$t->%s = 77;" % n, "$t->pk_%s()" % n, ["out"], "PArrowWrite", c, n, d, tag, init[tag])
+                wr("$t->{$nm} = 77;", "$t->pk_%s()" % n, ["out"], "PDynWrite", c, n, d, tag, init[tag])
+                wr("$t[$nm] = 77;", "$t->pk_%s()" % n, ["out"], "PIndexWrite", c, n, d, tag, init[tag])
+            for n, d, tag in keep(h.resolvable(c, "meth")):
+                rd("$o->%s()" % n, ["out"], "PCall", c, n, d, tag)
+                L.append('$nm = "%s";' % n)
+                rd("$o->{$nm}()", ["out"], "PDynCall", c, n, d, tag)
+            for n, d, tag in keep(h.resolvable(c, "smeth")):
+                rd("%s::%s()" % (c, n), ["out"], "PStaticCall", c, n, d, tag)
+            for n, d, tag in keep(h.resolvable(c, "sprop")):
+                rd("%s::$%s" % (c, n), ["out"], "PStaticRead", c, n, d, tag)
+        # ---- inside: code written in l, running on an object of runtime class r (r is l or a descendant)
+        for l, _ in od(h.classes):
+            for r, _ in od(h.classes):
+                if not h.le(r, l):
+                    continue
+                site = ["in", l, r]
+                L.append("$s = new %s();" % r)
+                for c in od(targets):
+                    L.append("$o = new %s();" % c)
+                    for n, d, tag in keep(h.resolvable(c, "prop")):
+                        rd("$s->%s_rd_%s($o)" % (l, n), site, "PArrowRead", c, n, d, tag)
+                        rd("$s->%s_crd_%s($o)" % (l, n), site, "PArrowRead", c, n, d, tag, "closure" + ("," + mark if mark else ""))
+                        rd('$s->%s_dyrd($o, "%s")' % (l, n), site, "PDynRead", c, n, d, tag)
+                        rd('$s->%s_ixrd($o, "%s")' % (l, n), site, "PIndexRead", c, n, d, tag)
+                        wr("$s->%s_wr_%s($t, 77);" % (l, n), "$t->pk_%s()" % n, site, "PArrowWrite", c, n, d, tag, init[tag])
+                        wr('$s->%s_dywr($t, "%s", 77);' % (l, n), "$t->pk_%s()" % n, site, "PDynWrite", c, n, d, tag, init[tag])
+                        wr('$s->%s_ixwr($t, "%s", 77);' % (l, n), "$t->pk_%s()" % n, site, "PIndexWrite", c, n, d, tag, init[tag])
+                    for n, d, tag in keep(h.resolvable(c, "meth")):
+                        rd("$s->%s_cl_%s($o)" % (l, n), site, "PCall", c, n, d, tag)
+                        rd("$s->%s_ccl_%s($o)" % (l, n), site, "PCall", c, n, d, tag, "closure" + ("," + mark if mark else ""))
+                        rd('$s->%s_dycl($o, "%s")' % (l, n), site, "PDynCall", c, n, d, tag)
+                    for n, d, tag in keep(h.resolvable(c, "smeth")):
+                        rd("$s->%s_st_%s_%s()" % (l, c, n), site, "PStaticCall", c, n, d, tag)
+                    for n, d, tag in keep(h.resolvable(c, "sprop")):
+                        rd("$s->%s_sr_%s_%s()" % (l, c, n), site, "PStaticRead", c, n, d, tag)
+                # $this paths: the object is $this (class r)
+                for n, d, tag in keep(h.resolvable(l, "prop")):
+                    rd("$s->%s_trd_%s()" % (l, n), site, "PThisRead", r, n, d, tag)
+                    if not only or only == (tuple(site), "PThisWrite", r, n):
+                        L.append('$t = new %s(); try { $t->%s_twr_%s(77); echo "A"; } catch (Throwable $e) { echo "D"; } echo ":", $t->pk_%s(), "\\n";' % (r, l, n, n))
+                        probes.append({"site": site, "path": "PThisWrite", "c": r, "m": n, "d": d, "tag": tag, "store": init[tag], "extra": mark})
+                for n, d, tag in keep(h.resolvable(l, "meth")):
+                    rd("$s->%s_tcl_%s()" % (l, n), site, "PThisCall", r, n, d, tag)
+                par = h.parent[l]
+                if par:
+                    for kind in ("meth", "smeth"):
+                        for n, d, tag in keep(h.resolvable(par, kind)):
+                            rd("$s->%s_pa_%s()" % (l, n), site, "PParentCall", r, n, d, tag)
+
+    emit_pass(False)
+    emit_pass(True)
     # static stores last (they change class state): always through the class that declares the member
     for x in h.declaring:
         for n, kind, tag in h.members(x):
-            if kind == "sprop":
+            if kind == "sprop" and (not only or only == (("out",), "PStaticWrite", x, n)):
                 L.append('try { %s::$%s = 77; echo "A"; } catch (Throwable $e) { echo "D"; } echo ":", %s::$%s, "\\n";' % (x, n, x, n))
                 probes.append({"site": ["out"], "path": "PStaticWrite", "c": x, "m": n, "d": x, "tag": tag, "store": init[tag] + 10, "extra": ""})
     return "\n".join(L) + "\n", probes
@@ -279,7 +301,8 @@ BSITES = [("prop:arrow", "BProp"), ("prop:this", "BProp"), ("prop:dyn", "BProp")
           ("return:function", "BReturn"), ("return:method", "BReturn")]
 
 
-def type_script_and_probes():
+def type_script_and_probes(only=None):
+    """only = (boundary site label, type, value kind): replay of one cell"""
     L = ["class A {} class B extends A {} class C {} interface I {} class D implements I {}"]
     probes = []
     for ti, (tn, _) in enumerate(TYPES):
@@ -303,8 +326,12 @@ def type_script_and_probes():
                 "return:method": "$k = new K%d(); $k->rm(%s);" % (ti, vsrc),
             }
             for label, bc in BSITES:
-                L.append('try { %s echo "A\\n"; } catch (Throwable $e) { echo "D\\n"; }' % forms[label])
-                probes.append({"site": label, "b": bc, "ty": tn, "tyc": tc, "val": vn, "valc": vc})
+                if only and only != (label, tn, vn):
+                    continue
+                # twice: a rejected store / argument / return value must be rejected again
+                for rep in (0, 1):
+                    L.append('try { %s echo "A\\n"; } catch (Throwable $e) { echo "D\\n"; }' % forms[label])
+                    probes.append({"site": label, "b": bc, "ty": tn, "tyc": tc, "val": vn, "valc": vc})
     return "\n".join(L) + "\n", probes
 
 
@@ -338,6 +365,10 @@ def inst_case(rng):
         if kind != "leaf":
             parents_ok.append(name)
         classes.append((name, par, abstract, impls, ms))
+    return inst_build(classes, ifaces)
+
+
+def inst_build(classes, ifaces):
     L = []
     for name, ext, ms in ifaces:
         L.append("interface %s%s { %s }" % (name, (" extends " + ", ".join(ext)) if ext else "",
@@ -346,9 +377,19 @@ def inst_case(rng):
         body = " ".join(("abstract public function %s();" % x) if ab else ("public function %s() { return 1; }" % x) for x, ab in ms)
         L.append("%sclass %s%s%s { %s }" % ("abstract " if abstract else "", name, (" extends " + par) if par else "",
                                             (" implements " + ", ".join(impls)) if impls else "", body))
-    names = [c[0] for c in classes] + [i[0] for i in ifaces]
-    for x in names:
+    base = [c[0] for c in classes] + [i[0] for i in ifaces]
+    # every `new` is attempted three times (static name twice, then through a variable class name): the
+    # decision must be the same each time — a rejection that was caught must be a rejection again
+    names = []
+    for x in base:
         L.append('try { $z = new %s(); echo "A\\n"; } catch (Throwable $e) { echo "D\\n"; }' % x)
+        L.append('try { $z = new %s(); echo "A\\n"; } catch (Throwable $e) { echo "D\\n"; }' % x)
+        L.append('$nm = "%s"; try { $z = new $nm(); echo "A\\n"; } catch (Throwable $e) { echo "D\\n"; }' % x)
+        names += [x, x, x]
+    # and once more for all, in reverse order, after everything above has been tried
+    for x in reversed(base):
+        L.append('try { $z = new %s(); echo "A\\n"; } catch (Throwable $e) { echo "D\\n"; }' % x)
+        names.append(x)
     tbl = "{| acl := %s; aif := %s |}" % (
         coq_list('("%s", {| a_extends := %s; a_impls := %s; a_abstract := %s; a_meths := %s |})' % (
             name, ('(Some "%s")' % par) if par else "None", coq_list('"%s"' % i for i in impls), "true" if abstract else "false",
@@ -381,10 +422,29 @@ def main(ck):
         ck.broken.append("harness-build")
         ck.finish(evaluations=0, distinct_nontrivial=0, rule="harness did not build")
 
-    hs = shapes(rng)
-    vis = [vis_script_and_probes(h) for h in hs]
-    tsrc, tprobes = type_script_and_probes()
-    icases = [inst_case(rng) for _ in range(400 if ck.tier == "quick" else 6000)]
+    if ck.replay:
+        # re-run exactly the cell of the replay file (the fixture classes are rebuilt, only that probe is executed)
+        rp = json.load(open(ck.replay))
+        hs, vis, icases = [], [], []
+        tsrc, tprobes = "", []
+        if "shape" in rp:
+            h = H([tuple(x) for x in rp["shape"]], rp["declaring"])
+            pr = rp["probe"]
+            hs = [h]
+            vis = [vis_script_and_probes(h, (tuple(pr["site"]), pr["path"], pr["c"], pr["m"]))]
+        elif "probe" in rp and "ty" in rp["probe"]:
+            pr = rp["probe"]
+            tsrc, tprobes = type_script_and_probes((pr["site"], pr["ty"], pr["val"]))
+        elif "case" in rp and "classes" in rp["case"]:
+            icases = [inst_build([tuple(c[:4]) + ([tuple(m) for m in c[4]],) for c in rp["case"]["classes"]],
+                                 [tuple(i) for i in rp["case"]["ifaces"]])]
+        ck.log("replay: %d visibility probe(s), %d type probe(s), %d instantiation case(s)" % (
+            sum(len(v[1]) for v in vis), len(tprobes), len(icases)))
+    else:
+        hs = shapes(rng)
+        vis = [vis_script_and_probes(h) for h in hs]
+        tsrc, tprobes = type_script_and_probes()
+        icases = [inst_case(rng) for _ in range(400 if ck.tier == "quick" else 6000)]
     srcs = [v[0] for v in vis] + [tsrc] + [c["src"] for c in icases]
     outs, rc, err = run_impl(binary, srcs)
     if len(outs) != len(srcs):
@@ -421,6 +481,14 @@ def main(ck):
     with concurrent.futures.ThreadPoolExecutor(max(1, len(jobs))) as ex:
         txts = list(ex.map(lambda j: ck.eval_print(j[3], "(wf tbl, vall tbl 0 ps, %d%%nat)" % j[0], timeout=600), jobs))
     for (hi, h, probes, hdr), txt in zip(jobs, txts):
+        if ck.replay:
+            side = ck.eval_print(hdr, "map (fun q => (decide tbl (v_site q) (v_path q) (v_cls q) (v_mem q), "
+                                      "match resolve tbl (v_site q) (v_path q) (v_cls q) (v_mem q) with "
+                                      "Some (d, x) => Some (d, mb_mod x, visible tbl (v_site q) d (mb_mod x)) | None => None end)) ps")
+            for p in probes:
+                ck.log("replay probe %s %s class=%s member=%s (%s): implementation printed %r" % (
+                    p["site"], p["path"], p["c"], p["m"], p["extra"] or "first pass", p["obs"]))
+            ck.log("model decision / (declaring class, modifier, visible by the rule): " + side)
         if not txt.startswith("(true"):
             ck.broken.append("correspondence-eval:vis-shape-%d" % hi)
             ck.log("vis shape %d: unexpected evaluation result: %s" % (hi, txt[:400]))
@@ -477,6 +545,9 @@ def main(ck):
     else:
         terms = ['{| t_b := %s; t_ty := %s; t_val := %s; t_accepted := %s |}' % (p["b"], p["tyc"], p["valc"], "true" if l == "A" else "false")
                  for p, l in zip(tprobes, lines)]
+        if ck.replay:
+            for p, l in zip(tprobes, lines):
+                ck.log("replay type probe %s type=%s value=%s: implementation %s" % (p["site"], p["ty"], p["val"], "accepted" if l == "A" else "rejected"))
         bad = ck.eval_cases("tcases", HEADER, terms, "check_t", shard=400)
         total += len(tprobes)
         for j, cls in sorted(bad.items()):
@@ -492,7 +563,8 @@ def main(ck):
         for p in tprobes:
             dist[p["site"]] = dist.get(p["site"], 0) + 1
 
-    ck.samples = [{"shape": hs[0].classes, "probe": {x: vis[0][1][5][x] for x in ("site", "path", "c", "m")}}, tprobes[17]]
+    if not ck.replay:
+        ck.samples = [{"shape": hs[0].classes, "probe": {x: vis[0][1][5][x] for x in ("site", "path", "c", "m")}}, tprobes[17]]
     ck.cov["probe_distribution"] = dist
     ck.cov["shapes"] = [h.classes for h in hs]
     ck.finish(level="proof", evaluations=total, distinct_nontrivial=total - dist.get("static-write", 0),
